@@ -30,7 +30,7 @@ OWN = {
     "DataObjectConstructed": {"C10", "C04"},
 }
 
-REPORTS_GATE = ["r:wmonth:orig", "r:weast:orig", "x:wmonth", "r:wday:orig"]      # r:wday: a single day in a month the short baseline never saw
+REPORTS_GATE = ["r:wmonth:orig", "r:weast:orig", "x:wmonth", "y:wmonth", "r:wday:orig"]      # r:wday: a single day in a month the short baseline never saw
 REPORTS_SPAN = ["r:wyear:orig", "r:wpart:orig", "r:wmonth:orig", "r:wweek:orig", "r:wday:orig", "r:wweek:absent"]
 REPORTS_OBS = ["r:wyear:orig", "r:wyear:x3", "r:wyear:shuffled", "r:wyear:partnan", "r:wyear:partzero", "r:wyear:allnan", "r:wyear:absent",
                "r:wpart:orig", "r:wpart:absent", "r:wpart:partnan", "r:wpart:partzero",
@@ -214,7 +214,10 @@ def expand(hist, scen, fam, aggs, salt, remote_restart, prof=""):
             out.append({"op": "make", "d": did, "fam": fam, "kind": "baseline", "name": parts[1], "ghi": solar, "supp": supp, "entry": r.choice(["frame", "series", "dtcol"]) if fam in ("daily", "billing") else r.choice(["frame", "dtcol"]) if fam == "hourly" else "frame"})
         elif parts[0] == "r":
             out.append({"op": "make", "d": did, "fam": fam, "kind": "reporting", "name": parts[1], "obs": parts[2], "ghi": solar, "supp": supp,
-                        "entry": r.choice(["frame", "frame", "dtcol"]) if fam != "caltrack" else "frame"})
+                        "entry": (r.choice(["frame", "frame", "dtcol", "series_utc"]) if fam in ("daily", "billing") else r.choice(["frame", "frame", "dtcol"])) if fam != "caltrack" else "frame"})
+        elif parts[0] == "y":           # the sibling family's data class (shares a base class with the right one)
+            other = {"daily": "billing", "billing": "daily", "hourly": "caltrack", "caltrack": "hourly"}[fam]
+            out.append({"op": "make", "d": did, "fam": other, "kind": "reporting", "name": parts[1], "obs": "orig"})
         else:
             other = "hourly" if fam in ("daily", "billing") else "daily"
             out.append({"op": "make", "d": did, "fam": other, "kind": "reporting", "name": parts[1], "obs": "orig"})
